@@ -122,3 +122,5 @@ let show_res f = function
   | Ok a -> "ok " ^ f a
   | Err -> "err"
   | Crash -> "crash"
+
+let s_of_ocaml (s : ostring) : z list = L.init (S.length s) (fun i -> z_of_int (C.code s.[i]))
